@@ -60,6 +60,6 @@ void h_SP(void)
 }
 //@run name=SimplifyPath.len4 entry=h_SP defs=LEN=4 unwind=6 flags="--bounds-check --pointer-check --unsigned-overflow-check" timeout=600 bounded="path length exactly 4 (len < 4 returns the input); distances an arbitrary table"
 //@run name=SimplifyPath.len5 entry=h_SP defs=LEN=5 unwind=7 flags="--bounds-check --pointer-check --unsigned-overflow-check" timeout=600 bounded="path length exactly 5"
-//@run name=SimplifyPath.len6 entry=h_SP defs=LEN=6 unwind=8 flags="--bounds-check --pointer-check --unsigned-overflow-check" timeout=900 bounded="path length exactly 6" tier=thorough
+//@run name=SimplifyPath.len6 entry=h_SP defs=LEN=6 unwind=8 flags="--bounds-check --pointer-check --unsigned-overflow-check" timeout=900 bounded="path length exactly 6" tier=deep
 //@assume bounded: SimplifyPath's main loop needs a cache-coherence invariant over floating-point distances and ghost witnesses for every GetNext/GetPrior call; it is checked with the length fixed per run, not proved.
 //@run name=SimplifyPath.len4.F5 entry=h_SP defs=LEN=4,F5_TRIGGER unwind=6 flags="--bounds-check --pointer-check --unsigned-overflow-check" timeout=600 bounded="path length exactly 4, epsilon^2 >= DBL_MAX allowed" expect=fail:end.points|between.2.and known=F5
